@@ -639,7 +639,7 @@ impl<'tcx> Cx<'tcx> {
                     ("t", format!("{}", target.as_usize())),
                     ("msg", esc(&format!("{:?}", msg).chars().take(60).collect::<String>())),
                 ]),
-                TerminatorKind::Call { func, args, destination, target, .. } => {
+                TerminatorKind::Call { func, args, destination, target, unwind, .. } => {
                     let fty = func.ty(&body.local_decls, tcx);
                     let mut kv = vec![("k", esc("call"))];
                     match fty.kind() {
@@ -731,6 +731,9 @@ impl<'tcx> Cx<'tcx> {
                     let aj: Vec<String> = args.iter().map(|a| self.op_j(did, body, &a.node)).collect();
                     kv.push(("args", arr(aj)));
                     kv.push(("dest", self.place_j(body, destination)));
+                    if let mir::UnwindAction::Cleanup(ub) = unwind {
+                        kv.push(("unwind", format!("{}", ub.as_usize())));
+                    }
                     kv.push((
                         "t",
                         match target {
